@@ -3,6 +3,7 @@ package mp4
 import (
 	"fmt"
 	"io"
+	"strings"
 
 	"github.com/Eyevinn/mp4ff/bits"
 )
@@ -94,6 +95,15 @@ func containerSize(children []Box) uint64 {
 	return boxHeaderSize + contentSize
 }
 
+// childSizesMsg lists type and size of children for an error message
+func childSizesMsg(children []Box) string {
+	var sb strings.Builder
+	for _, c := range children {
+		fmt.Fprintf(&sb, "%s:%d ", c.Type(), c.Size())
+	}
+	return sb.String()
+}
+
 // DecodeContainerChildren decodes a container box
 func DecodeContainerChildren(hdr BoxHeader, startPos, endPos uint64, r io.Reader) ([]Box, error) {
 	children := make([]Box, 0, 8)
@@ -111,11 +121,7 @@ func DecodeContainerChildren(hdr BoxHeader, startPos, endPos uint64, r io.Reader
 		if pos == endPos {
 			return children, nil
 		} else if pos > endPos {
-			msg := ""
-			for _, c := range children {
-				msg += fmt.Sprintf("%s:%d ", c.Type(), c.Size())
-			}
-			return nil, fmt.Errorf("non-matching children box sizes, parentSize=%d, %s", endPos-startPos, msg)
+			return nil, fmt.Errorf("non-matching children box sizes, parentSize=%d, %s", endPos-startPos, childSizesMsg(children))
 		}
 	}
 }
@@ -127,11 +133,7 @@ func DecodeContainerChildrenSR(hdr BoxHeader, startPos, endPos uint64, sr bits.S
 	initPos := sr.GetPos()
 	for {
 		if pos > endPos {
-			msg := ""
-			for _, c := range children {
-				msg += fmt.Sprintf("%s:%d ", c.Type(), c.Size())
-			}
-			return nil, fmt.Errorf("non-matching children box sizes, parentSize=%d, %s", endPos-startPos, msg)
+			return nil, fmt.Errorf("non-matching children box sizes, parentSize=%d, %s", endPos-startPos, childSizesMsg(children))
 		}
 		if pos == endPos {
 			break
